@@ -1,13 +1,15 @@
 //! C06 (and C20) recorder for arbitrary workspaces: for every identifier token of every file, what
 //! goto_definition, references and highlight_related answer.  Input: ndjson {"files":[[name,text],..]};
 //! output (--out FILE): one table per workspace for TLC (spec/Refs.tla); stdout: panics + summary.
+//! The first file is the module of the local package `app`, the others belong to a second local package `lib` that `app`
+//! depends on (one workspace in four, by VERIF_SEED and index or by "shape": all files in one package).
 use ide::{FileId, FilePos, GotoDefinitionResult};
 use serde_json::{json, Value};
 use std::io::{BufRead, Write};
 use syntax::lexer::GleamLexer;
 use syntax::SyntaxKind;
 use verif_harness::util::{catch, quiet_panics};
-use verif_harness::workspace;
+use verif_harness::workspace::{self, Shape};
 
 fn ident_at(text: &str, start: usize, end: usize) -> Option<(usize, String)> {
     // first identifier token inside [start, end)
@@ -18,6 +20,10 @@ fn ident_at(text: &str, start: usize, end: usize) -> Option<(usize, String)> {
         }
     }
     None
+}
+
+fn shape_name(v: &Value, seed: u64, wi: usize) -> &'static str {
+    match v["shape"].as_str() { Some("one-package") => Shape::OnePackage, Some(_) => Shape::TwoPackages, None => Shape::seeded(seed, wi) }.name()
 }
 
 fn main() {
@@ -31,6 +37,7 @@ fn main() {
     let so = std::io::stdout();
     let mut so = so.lock();
     let (mut nws, mut nocc, mut nq) = (0u64, 0u64, 0u64);
+    let seed: u64 = std::env::var("VERIF_SEED").ok().and_then(|s| s.parse().ok()).unwrap_or(1);
     for (wi, line) in std::io::stdin().lock().lines().enumerate() {
         let line = line.unwrap();
         if line.trim().is_empty() {
@@ -40,7 +47,8 @@ fn main() {
         let files: Vec<(String, String)> = v["files"].as_array().unwrap().iter().map(|p| (p[0].as_str().unwrap().to_string(), p[1].as_str().unwrap().to_string())).collect();
         let mods: Vec<(&str, &str)> = files.iter().map(|(n, t)| (n.as_str(), t.as_str())).collect();
         let r = catch(|| {
-            let ws = workspace::single_package(&mods);
+            let shape = match v["shape"].as_str() { Some("one-package") => Shape::OnePackage, Some(_) => Shape::TwoPackages, None => Shape::seeded(seed, wi) };
+            let ws = workspace::gen_workspace(shape, &mods);
             let a = ws.host.snapshot();
             let mut occ: Vec<Value> = vec![];
             let mut ranges: Vec<(u32, usize, usize)> = vec![];
@@ -108,7 +116,7 @@ fn main() {
                     };
                     range_recs.insert(format!("{{\"f\":{fi},\"nf\":{},\"s\":{s},\"e\":{e},\"len\":{len},\"bs\":{bs},\"be\":{be}}}", files.len()));
                 }
-                writeln!(f, "{}", json!({"ws": wi, "label": v["label"], "occ": occ})).unwrap();
+                writeln!(f, "{}", json!({"ws": wi, "label": v["label"], "shape": shape_name(&v, seed, wi), "occ": occ})).unwrap();
             }
             Err(p) => {
                 writeln!(so, "{}", json!({"kind": "mismatch", "prop": "C10", "features": {"what": "panic", "panic": p}, "detail": {"case": v}})).unwrap();
